@@ -20,10 +20,18 @@ for d in sorted(glob.glob(os.path.join(root, "seeded", "C*"))):
         os.makedirs(os.path.join(tmp, "checker")); shutil.copy(os.path.join(root, "checker", "floors.json"), os.path.join(tmp, "checker"))
         if os.path.exists(os.path.join(root, "known_findings.json")): shutil.copy(os.path.join(root, "known_findings.json"), tmp)
         fired = {}
-        for p in claimed:
-            rr = subprocess.run([os.path.join(root, "bin", "raftlint"), "-property", p, "-repo", dst], capture_output=True, text=True, env=dict(os.environ, VERIF_OUT=tmp))
-            if rr.returncode != 0:
-                fired[p] = [l.strip()[:200] for l in rr.stdout.splitlines() if l.strip().startswith(("VIOLATED", "UNDECIDED", "ENGINE"))][:3]
+        rr = subprocess.run([os.path.join(root, "bin", "raftlint"), "-all", "-repo", dst], capture_output=True, text=True)
+        cur = None
+        for l in rr.stdout.splitlines():
+            if l.startswith("FAIL "):
+                cur = l.split()[1]; fired[cur] = []
+            elif l.startswith("PASS "):
+                cur = None
+            elif l.startswith("LOAD-FAILED"):
+                fired["LOAD"] = [l[:200]]
+            elif cur and l.strip():
+                fired[cur].append(l.strip()[:200])
+        fired = {k: v for k, v in fired.items() if k in claimed or k == "LOAD"}
         own = meta["property"] in fired
         results[name] = {"property": meta["property"], "detected_by_own_property": own, "detected_by": sorted(fired), "first_reports": {k: v[:1] for k, v in fired.items()}}
         print(("DETECT " if fired else "MISSED ") + name, "own" if own else "", sorted(fired))
